@@ -167,7 +167,7 @@ def canon_obs(o):
                     out[k] = sorted(([e[0], canon_obs(e[1])] for e in v), key=lambda e: e[0])
                 else:
                     out[k] = sorted((canon_obs(e) for e in v), key=lambda e: e.get("n", "") if isinstance(e, dict) else str(e))
-            elif k == "names" and isinstance(v, list):
+            elif k in ("names", "rootgroups") and isinstance(v, list):
                 out[k] = sorted(v)
             else:
                 out[k] = canon_obs(v)
